@@ -28,6 +28,7 @@ import (
 //verif:stub (*github.com/cloudwego/netpoll.defaultPoll).Wait verifPollWait
 
 type verifKMon struct {
+	handlerClosed          int32 // the request handler has called Close and Close has returned
 	ctlAdd, ctlDel, ctlMod int32
 	interest               int32 // 0 none, 1 read, 2 read+write
 	fdClose                int32
